@@ -1428,6 +1428,129 @@ example : ((Reads.ipv4exts 17).run (readerAt [0xff] exAuth)).2 = .ok (none, 17) 
 
 end ReaderExamples
 
+/-! #### IpHeaders (`IpHeaders::read` / `IpHeaders::from_slice`): IP header + extension headers through a
+  `LimitedReader` bounded by total_len / payload_length.
+  Slice side: `Dec.ipHeadersFromSlice` on the memory of `b` (struct mode, windows of `b`; `dec.*` correspondence
+  of C03/C06).  Reader side: `ipHeadersRead` (Model/Io.lean, `io.read.ipheaders` correspondence of C16).
+  EXCEPTIONS, explicit as the hypothesis `HoldsAnnounced b` (both need the end of the slice, which a reader
+  does not have): (a) `from_slice` rejects a slice shorter than total_len / 40 + payload_length, the reader reads
+  on; (b) `from_slice` takes an IPv6 payload_length of 0 as "to the end of the slice", the reader as a limit of
+  0 bytes.  Examples of both below.  Under the hypothesis:
+    * success ⟺ success, same header bytes, same extension headers in the same slots (`IpViewMatch`), same
+      next ip number, and the reader has consumed exactly up to the start of the payload (`r.pl.w.o`);
+    * errors (`IpErrAgrees`): same content error with the same offending value; a header cut by the END OF
+      THE SLICE is the reader's end of data (or, on fewer than 20 bytes, the bad IHL the reader has already
+      seen in the first byte); a header cut by the LENGTH FIELD is a `LenError` of the `LimitedReader` with
+      the same `len`, `len_source`, `layer` and `layer_start_offset` - and the same `required_len`, except on
+      an IPv6 raw extension header with fewer than 8 bytes left, where the reader asks for 2 bytes first and
+      then for the whole header, the slice decoder for 8 (`LenErrAgrees`; checked on the crate: payload_length
+      1 behind next_header 60 gives required_len 8 from `from_slice`, 2 from `read`). -/
+
+/-- the complete comparison -/
+theorem ip_headers_read_vs_from_slice (pre b : Bytes) (hH : HoldsAnnounced b) :
+    match Dec.ipHeadersFromSlice (Dec.memOf b) 0 b.length with
+    | .ok r => ∃ v, ipHeadersRead (readerAt pre b) = (readerAdv pre b r.pl.w.o, .ok v) ∧ IpViewMatch b r v
+    | .error e => ∃ n le, ipHeadersRead (readerAt pre b) = (readerAdv pre b n, .error le) ∧ IpErrAgrees b e le :=
+  ipheaders_table pre b hH
+
+/-- (1) `from_slice` succeeds ⟹ `read` succeeds with the matching value and has consumed exactly the
+    headers; the only hypothesis left is exception (b) (a successful `from_slice` implies the rest) -/
+theorem ip_headers_read_of_slice (pre b : Bytes) (r : Dec.IpR)
+    (hd : Dec.ipHeadersFromSlice (Dec.memOf b) 0 b.length = .ok r)
+    (hz : bAt b 0 / 16 = 6 → ¬ (be16 b 4 = 0 ∧ 40 < b.length)) :
+    ∃ v, ipHeadersRead (readerAt pre b) = (readerAdv pre b r.pl.w.o, .ok v) ∧ IpViewMatch b r v := by
+  have t := ipheaders_table pre b (holdsAnnounced_of_ok b r hd hz)
+  rw [hd] at t; exact t
+
+/-- (2) `read` succeeds ⟹ `from_slice` succeeds with the matching value -/
+theorem ip_headers_slice_of_read (pre b : Bytes) (hH : HoldsAnnounced b) (v : IpRead)
+    (hr : (ipHeadersRead (readerAt pre b)).2 = .ok v) :
+    ∃ r, Dec.ipHeadersFromSlice (Dec.memOf b) 0 b.length = .ok r ∧
+      (ipHeadersRead (readerAt pre b)).1 = readerAdv pre b r.pl.w.o ∧ IpViewMatch b r v := by
+  have t := ipheaders_table pre b hH
+  cases hd : Dec.ipHeadersFromSlice (Dec.memOf b) 0 b.length with
+  | ok r =>
+    rw [hd] at t
+    obtain ⟨v', t1, t2⟩ := t
+    rw [t1] at hr ⊢
+    cases hr
+    exact ⟨r, rfl, rfl, t2⟩
+  | error e =>
+    rw [hd] at t
+    obtain ⟨n, le, t1, _⟩ := t
+    rw [t1] at hr; cases hr
+
+/-- (3)+(4) one rejects iff the other does, with agreeing errors -/
+theorem ip_headers_rejections_coincide (pre b : Bytes) (hH : HoldsAnnounced b) :
+    (∀ e, Dec.ipHeadersFromSlice (Dec.memOf b) 0 b.length = .error e →
+      ∃ le, (ipHeadersRead (readerAt pre b)).2 = .error le ∧ IpErrAgrees b e le) ∧
+    (∀ le, (ipHeadersRead (readerAt pre b)).2 = .error le →
+      ∃ e, Dec.ipHeadersFromSlice (Dec.memOf b) 0 b.length = .error e ∧ IpErrAgrees b e le) := by
+  have t := ipheaders_table pre b hH
+  cases hd : Dec.ipHeadersFromSlice (Dec.memOf b) 0 b.length with
+  | ok r =>
+    rw [hd] at t
+    obtain ⟨v', t1, _⟩ := t
+    exact ⟨fun e he => (by cases he), fun le hr => (by rw [t1] at hr; cases hr)⟩
+  | error e =>
+    rw [hd] at t
+    obtain ⟨n, le, t1, t2⟩ := t
+    exact ⟨fun e' he => (by cases he; exact ⟨le, by rw [t1], t2⟩),
+      fun le' hr => (by rw [t1] at hr; cases hr; exact ⟨e, rfl, t2⟩)⟩
+
+section IpHeadersExamples
+set_option maxRecDepth 8000
+
+/-- IPv4 header (total_len 36, protocol 51) + authentication header (16 bytes) + 1 byte: the hypotheses
+    hold, both doors succeed, 36 bytes consumed -/
+def exIph4 : Bytes := [0x45, 0, 0, 36, 0, 1, 0x40, 0, 64, 51, 0, 0, 10, 0, 0, 1, 10, 0, 0, 2] ++ exAuth
+example : HoldsAnnounced exIph4 := by decide
+example : Dec.ipHeadersFromSlice (Dec.memOf exIph4) 0 exIph4.length =
+    .ok (Dec.mkV4 0 20 (some ⟨20, 16⟩)
+      { num := 6, frag := false, src := .ipv4HeaderTotalLen, w := ⟨36, 0⟩, inc := false }) := by rfl
+example : ipHeadersRead (readerAt [0xff] exIph4) =
+    (readerAdv [0xff] exIph4 36, .ok (.v4 (exIph4.take 20) (some (exAuth.take 16)) 6)) := by rfl
+/-- total_len 24 cuts the authentication header: the same `LenError` through both doors -/
+example : HoldsAnnounced (exIph4.set 3 24) := by decide
+example : Dec.ipHeadersFromSlice (Dec.memOf (exIph4.set 3 24)) 0 (exIph4.set 3 24).length =
+    .error (.len { req := 12, len := 4, src := .ipv4HeaderTotalLen, layer := .ipAuthHeader, off := 20 }) := by rfl
+example : (ipHeadersRead (readerAt [0xff] (exIph4.set 3 24))).2 =
+    .error (.len { required := 12, len := 4, src := "Ipv4HeaderTotalLen", layer := "IpAuthHeader", off := 20 }) := by
+  rfl
+
+/-- exception (a): the same packet with total_len 100 in a 37 byte slice: `from_slice` rejects, `read`
+    succeeds -/
+def exIph4Long : Bytes := exIph4.set 3 100
+example : ¬ HoldsAnnounced exIph4Long := by decide
+example : Dec.ipHeadersFromSlice (Dec.memOf exIph4Long) 0 exIph4Long.length =
+    .error (.len { req := 100, len := 37, src := .slice, layer := .ipv4Packet, off := 0 }) := by rfl
+example : (ipHeadersRead (readerAt [0xff] exIph4Long)).2 =
+    .ok (.v4 (exIph4Long.take 20) (some (exAuth.take 16)) 6) := by rfl
+
+/-- exception (b): IPv6 header with payload_length 0 and next header 60, a destination options header
+    in the slice: `from_slice` succeeds (payload = rest of the slice), `read` hits its limit of 0 bytes -/
+def exIph6Zero : Bytes :=
+  [0x60, 0, 0, 0, 0, 0, 60, 64] ++ List.replicate 16 1 ++ List.replicate 16 2 ++ [17, 0, 0, 0, 0, 0, 0, 0]
+example : ¬ HoldsAnnounced exIph6Zero := by decide
+example : ∃ r, Dec.ipHeadersFromSlice (Dec.memOf exIph6Zero) 0 exIph6Zero.length = .ok r := by
+  simp [Dec.ipHeadersFromSlice, Dec.ipDispatchHeader, exIph6Zero, Dec.memOf, bAt, Dec.ipv6AfterHeaderStrict,
+    Dec.ipv6BoundStrict, Dec.g16, Dec.ipv6ChainStrict, Dec.extsWalkStrict, Dec.extsWalk, Dec.extsLoop,
+    Dec.rawFits, Dec.ExtSlots.none, Dec.extsDone, Dec.rawStore]
+example : (ipHeadersRead (readerAt [0xff] exIph6Zero)).2 =
+    .error (.len { required := 2, len := 0, src := "Ipv6HeaderPayloadLen", layer := "Ipv6ExtHeader", off := 40 }) := by
+  have h := ipHeadersRead_v6_exts [0xff] exIph6Zero (by decide) (by rfl) (by decide)
+  rw [h]
+  have hnh : bAt exIph6Zero 6 = 60 := by rfl
+  have hpl : be16 exIph6Zero 4 = 0 := by rfl
+  rw [hnh, hpl]
+  have hs : LReads.slot 60 [.dst, .rt, .frag, .auth, .fdst] = some (⟨.dst, by decide⟩, LReads.rawext) := by
+    simp [LReads.slot]
+  simp only [LReads.ipv6exts, show ¬ ((60 : Nat) = 0) by decide, if_false]
+  rw [lextsLoop_some 60 _ [] (by decide) .dst (by decide) LReads.rawext hs, evalOnL_bind]
+  simp [LReads.rawext, evalOnL, st6, LSt.started, LSt.lenErr]
+
+end IpHeadersExamples
+
 end ReadersVsSlices
 
 end EpModel.Props.C06
